@@ -37,7 +37,7 @@ DocVariants == {"ok", "doc_unknown_key", "root_unknown_key", "logger_unknown_key
                 "logger_level_bad", "refresh_bad", "refresh_wrong_type", "appender_no_kind", "root_appenders_wrong_type",
                 "logger_additive_wrong_type", "appender_kind_wrong_type", "filter_kind_wrong_type"}
 RootVariants == {"full", "no_level", "absent"}
-Refresh == {"none", "30s"}
+Refresh == {"none", "30s", "200ms"}      \* (a rate below one second is a rate like any other)
 \* loggers: name -> [lvl (0..5), add ("none" | "true" | "false"), apps (seq over {"c", "x", "ghost"})]
 LoggerNames == {<<"a">>, <<"a", ":", ":", "b">>, <<"a", ":", "b">>}        \* the last one is an invalid name
 
